@@ -12,6 +12,6 @@ git checkout -q -- . ; git clean -fdq
 for p in "$DIR"/p*.diff; do
   echo "### $p"
   git apply "$p" || { echo "patch does not apply"; continue; }
-  /verif/bin/gnetlint -repo $WT -verif $VV -prop all -tier "$TIER" -nomutants 2>&1 | grep -E "^violated|^UNDECIDED|^undecided" | cut -c1-330
+  ${GL:-/verif/bin/gnetlint} -repo $WT -verif $VV -prop all -tier "$TIER" -nomutants 2>&1 | grep -E "^violated|^UNDECIDED|^undecided" | cut -c1-330
   git checkout -q -- . ; git clean -fdq
 done
